@@ -6,6 +6,7 @@ from ..env import gfapy, GfapyError
 from ..runner import Part, Violation
 
 ID = "C09"
+ATHERIS = ['gfa1', 'gfa2']  # parts also driven by libFuzzer in the thorough tier (vf/runner.py: all_parts)
 RULE = ("model-based histories over every identified record type (S, P, L/C with ID tag, E, G, O, U): add and "
         "rename to a fresh identifier, to one in use by the same type, to one in use by another type, to '*', to "
         "integer-looking names; a mentioned E/G/O/U line to '*' (must be refused, state unchanged); ID tags of links/containments deleted or set to None; interleaved unused_name() calls and removals. After every step: names has no "
